@@ -940,6 +940,39 @@ def R4(ctx, rule="R4"):
                             ok = True
                         else:
                             why = "iteration chain %s" % names
+                        # the iteration is over a parameter of a private helper (an edge iterator / a node count): what the
+                        # helper's call sites in build() pass must be all raw edges / the node count of the graph
+                        if not ok and not sel and pb.kind == "fn" and pb.id != b.id:
+                            leaf = chain[-1] if chain else None
+                            pidx = None
+                            if leaf is not None and leaf[0] == "leaf:arg":
+                                pidx = leaf[2][1]
+                            elif leaf is not None and leaf[0] == "leaf:agg" and leaf[2][2] == "std::ops::Range" and "add_node" in p:
+                                hi_ = strip_refs(leaf[2][4][1])
+                                if is_const(strip_refs(leaf[2][4][0]), 0) and hi_.kind == "arg":
+                                    pidx = hi_[1]
+                            reach_ids = {y.id for y in build_reach(ctx)}
+                            csites = [(cb, cbb, ct) for (cb, cbb, ct) in fl.call_sites().get(pb.id, []) if cb.id in reach_ids]
+                            if pidx is not None and csites:
+                                all_ok = True
+                                for cb, cbb, ct in csites:
+                                    ae = strip_refs(expr_operand(cb, ct["args"][pidx - 1]))
+                                    if "add_node" in p:
+                                        if not (ae.kind == "call" and ae[1] in NODE_COUNT_FNS):
+                                            all_ok = False
+                                            why = "helper %s is given `%s` as node count" % (short(pb.id), fmt_expr(ae, cb))
+                                    else:
+                                        ch2 = iterator_chain(ctx, cb, ae)
+                                        n2 = [c[0] for c in ch2]
+                                        if not [c for c in n2 if c == "daggy::Dag::<N, E, Ix>::raw_edges"] or [c for c in n2 if c in SELECTIVE_ITER or c == "std::iter::Iterator::rev"]:
+                                            all_ok = False
+                                            why = "helper %s is given the edge iterator %s" % (short(pb.id), n2)
+                                    if cond_guards(cb, cbb):
+                                        all_ok = False
+                                        why = "helper %s is called conditionally" % short(pb.id)
+                                if all_ok:
+                                    ok = True
+                                    n += len(csites) - 1
                 # unconditional within the closure except for `?` on a previous add_edge
                 gs = []
                 for sb, de, vals in cond_guards(body, bb):
@@ -957,7 +990,8 @@ def R4(ctx, rule="R4"):
                     w = strip_refs(expr_operand(body, t["args"][3]))
                     wsrc = sources_of_expr(ctx, body, w)
                     ctx.check(all(s.kind in ("alloc", "closure_param", "param") for s in wsrc) and
-                              any("raw_edges" in str(s) for s in wsrc) or w.kind == "field",
+                              any("raw_edges" in str(s) for s in wsrc) or w.kind == "field" or
+                              (bool(wsrc) and all(s.kind == "param" and "edge::Edge" in ctx.fb.bodies[s[1]].locals[s[2]]["s"] for s in wsrc)),
                               rule, "weight|%s" % key, where,
                               "the copied edge keeps the weight of the raw edge", "copied edge weight is %s" % fmt_expr(w, body))
     ctx.check(n >= 4, rule, "count", m.where(b), "2 add_node + 2 add_edge structure copies found", "expected 4 structure-copy calls, found %d" % n)
